@@ -76,6 +76,17 @@ fn close(x: f32, want: f64) -> bool {
     x.is_finite() && (x as f64 - want).abs() <= 1e-6 + 1e-6 * want.abs()
 }
 
+/// `close` with the absolute part scaled to the matrix: the combinations are homogeneous of degree one (a matrix
+/// scaled by s gives every intermediate, and so every rounding error, scaled by s), so the absolute slack that
+/// is right for entries of order 1 is 1e-6 * s for entries of order s. `scale` = largest finite |entry|; above 1
+/// the band of `close` is kept. An all-zero matrix demands exactly 0.
+fn close_scaled(x: f32, want: f64, scale: f64) -> bool {
+    if want.is_infinite() {
+        return close(x, want);
+    }
+    x.is_finite() && (x as f64 - want).abs() <= 1e-6 * scale.min(1.0) + 1e-6 * want.abs()
+}
+
 fn set<'a>(ont: &'a Ontology, ids: &[u32]) -> HpoSet<'a> {
     let mut g = HpoGroup::new();
     for i in ids {
@@ -96,6 +107,16 @@ thread_local! {
 thread_local! {
     /// a second Ontology instance with the same content as the one in use (built from the same facts)
     static TWIN: RefCell<Option<Rc<Ontology>>> = RefCell::new(None);
+    /// comparisons with the second set on the CURRENT twin instance: (answered, refused by a panic). A library may
+    /// refuse sets of two instances, but then it refuses all of them: both counts non-zero is a violation
+    static TWIN_VERDICTS: std::cell::Cell<(u64, u64)> = std::cell::Cell::new((0, 0));
+    /// refused comparisons over all twins of this process (evidence, surfaced by the supervisor)
+    static TWIN_REFUSED: std::cell::Cell<u64> = std::cell::Cell::new(0);
+}
+
+fn set_twin(t: Option<Rc<Ontology>>) {
+    TWIN.with(|x| *x.borrow_mut() = t);
+    TWIN_VERDICTS.with(|c| c.set((0, 0)));
 }
 
 fn check_matrix(ont: &Ontology, m: &[Vec<f32>], r: usize, c: usize, a_ids: &[u32], b_ids: &[u32], what: &str) -> V {
@@ -127,6 +148,9 @@ fn check_matrix(ont: &Ontology, m: &[Vec<f32>], r: usize, c: usize, a_ids: &[u32
         }
     }
     let data: Vec<f32> = (0..r).flat_map(|i| (0..c).map(move |j| (i, j))).map(|(i, j)| m[i][j]).collect();
+    let scale = data.iter().filter(|x| x.is_finite()).fold(0f64, |acc, x| acc.max(x.abs() as f64));
+    // "0 if either set is empty" is a fixed value, not a computed one: exactly 0
+    let close = |x: f32, want: f64| if r == 0 || c == 0 { x == 0.0 } else { close_scaled(x, want, scale) };
     for comb in COMBINERS {
         let want = reference(comb, m, r, c);
         // 1. HpoSet::similarity
@@ -153,26 +177,37 @@ fn check_matrix(ont: &Ontology, m: &[Vec<f32>], r: usize, c: usize, a_ids: &[u32
         }
         // 1b. the second set living on another Ontology instance with the same content (another release of the same terms: same ids, other names): the combination is defined on the terms, not on the instance
         // (an implementation that refuses sets of two instances by panicking is tolerated; a silently different value is not)
-        let twin_ok = twin.as_ref().map_or(false, |tw| {
-            let b2 = set(tw, b_ids);
-            crate::ctx::guard(|| a.similarity(&b2, table.clone(), comb)).is_ok()
-        });
-        if let Some(tw) = twin.as_ref().filter(|_| twin_ok) {
+        if let Some(tw) = twin.as_ref() {
             let b2 = set(tw, b_ids);
             table.owners.borrow_mut().clear();
-            let s1b = a.similarity(&b2, table.clone(), comb);
-            // whose handle the user function receives for a term of the second set (the twin's, or the term of that id
-            // re-resolved in the first instance) is not fixed by the statement - every id-keyed similarity gives the
-            // same matrix either way; it is counted as evidence, the value carries the demand
-            if table.owners.borrow().iter().any(|o| *o != (false, true)) {
-                TWIN_TERM_FROM_OTHER_INSTANCE.with(|c| c.set(c.get() + 1));
+            let answered = crate::ctx::guard(|| a.similarity(&b2, table.clone(), comb));
+            let (n_ok, n_refused) = TWIN_VERDICTS.with(|c| {
+                let (x, y) = c.get();
+                let now = if answered.is_ok() { (x + 1, y) } else { (x, y + 1) };
+                c.set(now);
+                now
+            });
+            if answered.is_err() {
+                TWIN_REFUSED.with(|c| c.set(c.get() + 1));
             }
-            if s1b.to_bits() != s1.to_bits() {
-                return v("HpoSet::similarity", "result differs when the second set belongs to another Ontology instance with the same content", format!("{comb:?} matrix {m:?}: {s1b} vs {s1}"));
+            if n_ok > 0 && n_refused > 0 {
+                return v("HpoSet::similarity", "a second set on another Ontology instance with the same content is answered for some pairs of sets and refused (panic) for others", format!("{comb:?} matrix {m:?}: this comparison {}; so far {n_ok} answered, {n_refused} refused on this pair of instances", if answered.is_ok() { "is answered" } else { "panics" }));
             }
-            let s2b = GroupSimilarity::new(comb, table.clone()).calculate(&a, &b2);
-            if s2b.to_bits() != s2.to_bits() {
-                return v("GroupSimilarity::calculate", "result differs when the second set belongs to another Ontology instance with the same content", format!("{comb:?} matrix {m:?}: {s2b} vs {s2}"));
+            if let Ok(s1b) = answered {
+                // whose handle the user function receives for a term of the second set (the twin's, or the term of that id
+                // re-resolved in the first instance) is not fixed by the statement - every id-keyed similarity gives the
+                // same matrix either way; it is counted as evidence, the value carries the demand
+                if table.owners.borrow().iter().any(|o| *o != (false, true)) {
+                    TWIN_TERM_FROM_OTHER_INSTANCE.with(|c| c.set(c.get() + 1));
+                }
+                if s1b.to_bits() != s1.to_bits() {
+                    return v("HpoSet::similarity", "result differs when the second set belongs to another Ontology instance with the same content", format!("{comb:?} matrix {m:?}: {s1b} vs {s1}"));
+                }
+                // (the first entry point answered: a panic of the second one is no refusal of two instances)
+                let s2b = GroupSimilarity::new(comb, table.clone()).calculate(&a, &b2);
+                if s2b.to_bits() != s2.to_bits() {
+                    return v("GroupSimilarity::calculate", "result differs when the second set belongs to another Ontology instance with the same content", format!("{comb:?} matrix {m:?}: {s2b} vs {s2}"));
+                }
             }
         }
         // 3. SimilarityCombiner::calculate on the Matrix
@@ -263,7 +298,10 @@ fn check_matrix(ont: &Ontology, m: &[Vec<f32>], r: usize, c: usize, a_ids: &[u32
         if !conflict && r > 0 && c > 0 {
             let ab = a.similarity(&b, sym.clone(), comb);
             let ba = b.similarity(&a, sym.clone(), comb);
-            if (ab - ba).abs() > 1e-6 {
+            // (relative to the entries like every value; non-finite only with non-finite - then `close` above has
+            // accepted the IEEE value or NaN for either order)
+            let ok = ab == ba || (!ab.is_finite() && !ba.is_finite()) || (ab.is_finite() && ba.is_finite() && ((ab - ba).abs() as f64) <= 1e-6 * scale.min(1.0) + 1e-6 * (ab.abs().max(ba.abs()) as f64));
+            if !ok {
                 return v("HpoSet::similarity", "depends on argument order although the term similarity is symmetric", format!("{comb:?} matrix {m:?}: (A,B) {ab} (B,A) {ba}"));
             }
         }
@@ -284,7 +322,8 @@ pub fn run(ctx: &mut Ctx) {
     let thorough = ctx.tier.thorough();
     ctx.rule = "case = block of consecutive r x c matrices (row-major base-|alphabet| counting) over the alphabet; each matrix is checked under three id assignments (A below B, interleaved, A above B; square matrices additionally A = B) x 3 combiners x {HpoSet::similarity, GroupSimilarity, SimilarityCombiner on Matrix, cached, cache reused for (A,B),(B,A),(A,B) and (one combiner per matrix) for A against B, a second partner set and B again, symmetric table}; distinct by construction; non-trivial = not all entries equal".into();
     ctx.assumptions = vec![
-        "entries are dyadic rationals so the reference is exact up to the final division; results compared with 1e-6".into(),
+        "entries are dyadic rationals so the reference is exact up to the final division; results compared with 1e-6 relative plus 1e-6 x min(1, largest |entry|) absolute (the combinations are homogeneous, so the slack scales with the entries); matrices/magnitudes: relative only, down to subnormal entries; an empty set demands exactly 0".into(),
+        "a second set on a twin instance: a panic is tolerated only as an all-or-nothing refusal (counted); a pair of instances on which some comparisons are answered and others panic is a violation".into(),
         "negative similarities are legal values of a user-supplied term similarity".into(),
         "the entry points are compared with the documented value up to rounding, not with each other bit for bit; bit-identity is demanded only between a plain and a cached evaluation through the same entry point".into(),
         "the user function must be asked for every pair (a in A, b in B); further questions and repeated questions are not excluded".into(),
@@ -308,7 +347,7 @@ pub fn run(ctx: &mut Ctx) {
         }
         g
     };
-    TWIN.with(|t| *t.borrow_mut() = Some(Rc::new(drive::build(&twin_of(&f), Mode::Minimal).expect("flat ontology must build"))));
+    set_twin(Some(Rc::new(drive::build(&twin_of(&f), Mode::Minimal).expect("flat ontology must build"))));
 
     let alpha4: [f32; 4] = [0.0, 0.25, 1.0, -0.5];
     let alpha3: [f32; 3] = [0.0, 0.25, 1.0];
@@ -434,7 +473,7 @@ pub fn run(ctx: &mut Ctx) {
         f2.edges.push((*i, 1));
     }
     let ont2 = drive::build(&f2, Mode::Minimal).expect("flat ontology must build");
-    TWIN.with(|t| *t.borrow_mut() = Some(Rc::new(drive::build(&twin_of(&f2), Mode::Minimal).expect("flat ontology must build"))));
+    set_twin(Some(Rc::new(drive::build(&twin_of(&f2), Mode::Minimal).expect("flat ontology must build"))));
     CURRENT_IDS.with(|c| *c.borrow_mut() = Rc::new(ids2.clone()));
     let b_choices: [[u32; 3]; 4] = [[5, 3_000_005, 70_000], [4464, 70_000, 3_000_005], [51_424, 1_100_000, 3_000_005], [5, 4464, 51_424]];
     for r in 1..=3usize {
@@ -486,7 +525,7 @@ pub fn run(ctx: &mut Ctx) {
     }
     // ---- sets that contain terms flagged obsolete and / or replaced (only a decoded ontology can carry the
     // flags): the combination is defined on the members of the two sets as given - nothing is dropped
-    {
+    'flagged: {
         CURRENT_IDS.with(|c| *c.borrow_mut() = Rc::new(ids.clone()));
         let mut f3 = Facts::default();
         f3.version = (2024, 2, 29);
@@ -509,10 +548,20 @@ pub fn run(ctx: &mut Ctx) {
             other => {
                 ctx.space("matrices/flagged-terms", "decoded ontology with obsolete / replaced terms");
                 ctx.violation("Ontology::from_bytes", "cannot decode a file laid out as documented", json!({"facts": f3.to_json(), "observed": format!("{:?}", other.map(|r| r.map(|_| ())))}));
-                return;
+                // only this block needs the decoded ontology: the spaces after it are declared and run
+                ctx.bump("skipped: matrices/flagged-terms (the v3 file with flagged terms is not decoded)", 1);
+                set_twin(None);
+                break 'flagged;
             }
         };
-        TWIN.with(|t| *t.borrow_mut() = drive::from_bytes(&crate::encode::encode(&twin_of(&f3), &crate::encode::EncOpts::v(3))).ok().and_then(|r| r.ok()).map(Rc::new));
+        // the twin is the same file with other names: as valid as the first one
+        let twin3 = drive::from_bytes(&crate::encode::encode(&twin_of(&f3), &crate::encode::EncOpts::v(3))).ok().and_then(|r| r.ok()).map(Rc::new);
+        if twin3.is_none() {
+            ctx.space("matrices/flagged-terms", "decoded ontology with obsolete / replaced terms");
+            ctx.violation("Ontology::from_bytes", "cannot decode a file laid out as documented", json!({"facts": twin_of(&f3).to_json(), "role": "second instance with the same content (other names)"}));
+            ctx.bump("skipped: twin-instance comparisons of matrices/flagged-terms (twin file not decoded)", 1);
+        }
+        set_twin(twin3);
         let max3 = if thorough { 3 } else { 2 };
         for r in 0..=max3 {
             for c in 0..=max3 {
@@ -778,7 +827,7 @@ pub fn run(ctx: &mut Ctx) {
     {
         use super::setroutes::{self, Op};
         use hpo::annotations::AnnotationId;
-        TWIN.with(|t| *t.borrow_mut() = None);
+        set_twin(None);
         let f4 = setroutes::facts();
         let depth = if thorough { 3 } else { 2 };
         ctx.space("sets/construction-routes", &format!("{}; every sequence of <= {depth} operations; after every operation the set is compared (3 combiners, asymmetric by-id similarity) as A against a fixed set, as B, and with itself: the value must be the documented combination over the terms iter() hands out, and the similarity must be asked for every one of those pairs", setroutes::DESCRIPTION));
@@ -813,7 +862,9 @@ pub fn run(ctx: &mut Ctx) {
                         let sim = ById { calls: Rc::new(RefCell::new(vec![])) };
                         let got = a.similarity(b, sim.clone(), comb);
                         let got2 = GroupSimilarity::new(comb, sim.clone()).calculate(a, b);
-                        if !close(got, want) || !close(got2, want) {
+                        // "0 if either set is empty": exactly
+                        let cl = |x: f32| if ia.is_empty() || ib.is_empty() { x == 0.0 } else { close(x, want) };
+                        if !cl(got) || !cl(got2) {
                             return Some(("HpoSet::similarity".into(), "result is not the documented combination of the pairwise matrix of the sets' terms".into(), format!("{comb:?}: A = {ia:?}, B = {ib:?}: HpoSet::similarity {got}, GroupSimilarity::calculate {got2}, expected {want}")));
                         }
                         // (further questions are not excluded by the property; a wrong pair that is used shows in the value)
@@ -896,7 +947,7 @@ pub fn run(ctx: &mut Ctx) {
     // held to the reference RELATIVE to its own size (an absolute tolerance would hide a result rounded to a fixed
     // number of decimal places, or flushed to zero, for a similarity whose scores are small)
     {
-        TWIN.with(|t| *t.borrow_mut() = None);
+        set_twin(None);
         CURRENT_IDS.with(|c| *c.borrow_mut() = Rc::new(ids.clone()));
         let bases: Vec<(usize, usize, Vec<f32>)> = vec![
             (1, 1, vec![0.75]),
@@ -906,8 +957,14 @@ pub fn run(ctx: &mut Ctx) {
             (3, 2, vec![0.46875, 0.09375, 0.65625, 0.90625, 0.03125, 0.78125]),
             (3, 3, vec![0.5, 0.96875, 0.125, 0.84375, 0.25, 0.6875, 0.0625, 0.375, 0.4375]),
         ];
-        ctx.space("matrices/magnitudes", &format!("{} fixed matrices (1x1 ... 3x3, entries k/32) x every scale 2^k, k = -60 ..= 60 x 3 combiners through HpoSet::similarity, GroupSimilarity::calculate and the Matrix: the result must be the reference within 1e-6 of its own magnitude", bases.len()));
-        for k in -60i32..=60 {
+        // two shapes beyond 3x3 (a "large" path of a combiner must keep small scores as well), entries k/32 again so that
+        // the sums of the maxima stay exact in f32; handed to the combiners as a Matrix
+        let wide: Vec<(usize, usize)> = vec![(5, 9), (33, 17)];
+        let wide_at = |i: usize, j: usize| (1 + (7 * i + 11 * j + (i * j) % 5) % 31) as f32 / 32.0;
+        ctx.space("matrices/magnitudes", &format!("{} fixed matrices (1x1 ... 3x3, entries k/32) x every scale 2^k, k = -140 ..= 120 (subnormal entries up to sums just below overflow) x 3 combiners through HpoSet::similarity, GroupSimilarity::calculate and the Matrix, and a 5x9 and a 33x17 matrix through the Matrix: the result must be the reference within 1e-6 of its own magnitude (plus 4 steps of the subnormal grid; 33x17: 6e-6)", bases.len()));
+        // what f32 cannot resolve at the bottom of its range: steps of 2^-149
+        let grid_slack = 4.0 * (2.0f64).powi(-149);
+        for k in -140i32..=120 {
             if !ctx.take() {
                 continue;
             }
@@ -936,13 +993,34 @@ pub fn run(ctx: &mut Ctx) {
                     match got {
                         Ok((s1, s2, s3)) => {
                             for (site, x) in [("HpoSet::similarity", s1), ("GroupSimilarity::calculate", s2), ("SimilarityCombiner::calculate", s3)] {
-                                if !(x.is_finite() && (x as f64 - want).abs() <= 1e-6 * want.abs()) {
+                                if !(x.is_finite() && (x as f64 - want).abs() <= 1e-6 * want.abs() + grid_slack) {
                                     ctx.violation(site, "result is not the documented combination of the pairwise matrix (relative to the magnitude of the scores)", json!({"rows": r, "cols": c, "matrix": format!("{m:?}"), "scale": format!("2^{k}"), "combiner": format!("{comb:?}"), "observed": format!("{x:e}"), "expected": format!("{want:e}")}));
                                     break;
                                 }
                             }
                         }
                         Err(p) => ctx.violation("HpoSet::similarity", "panics", json!({"rows": r, "cols": c, "matrix": format!("{m:?}"), "scale": format!("2^{k}"), "observed": p})),
+                    }
+                }
+            }
+            for (r, c) in &wide {
+                let (r, c) = (*r, *c);
+                let m: Vec<Vec<f32>> = (0..r).map(|i| (0..c).map(|j| wide_at(i, j) * scale).collect()).collect();
+                let data: Vec<f32> = m.iter().flatten().copied().collect();
+                // an evaluation that divides before it sums rounds once per maximum
+                let rtol = (1.2e-7 * (r + c) as f64).max(1e-6);
+                for comb in COMBINERS {
+                    ctx.exec();
+                    ctx.validated();
+                    ctx.transitions(1);
+                    let want = reference(comb, &m, r, c);
+                    match guard(|| comb.calculate(&Matrix::new(r, c, &data))) {
+                        Ok(x) => {
+                            if !(x.is_finite() && (x as f64 - want).abs() <= rtol * want.abs() + grid_slack) {
+                                ctx.violation("SimilarityCombiner::calculate", "result is not the documented combination of the matrix (relative to the magnitude of the scores)", json!({"rows": r, "cols": c, "entries": "(1 + (7i + 11j + (ij mod 5)) mod 31) / 32", "scale": format!("2^{k}"), "combiner": format!("{comb:?}"), "observed": format!("{x:e}"), "expected": format!("{want:e}")}));
+                            }
+                        }
+                        Err(p) => ctx.violation("SimilarityCombiner::calculate", "panics", json!({"rows": r, "cols": c, "scale": format!("2^{k}"), "observed": p})),
                     }
                 }
             }
@@ -953,7 +1031,7 @@ pub fn run(ctx: &mut Ctx) {
     // ---- (last, because of the garbage it leaves in the allocator) sets around the 16-bit size border: the
     // documented combinations for |A| up to 65 535 with |B| in {1, 2, 4} and the transposed shapes
     {
-        TWIN.with(|t| *t.borrow_mut() = None);
+        set_twin(None);
         ctx.space("sizes/u16-border", "flat ontology with 65 540 terms; (|A|, |B|) in {(65535,1), (65534,2), (65533,4), (65535,4), (300,300), (2,6000)} and, thorough tier, (1,65535), (4,65533) x 3 combiners; similarity = a dyadic function of the two ids (sums stay exact in f32; for (300,300) one whose row and column maxima vary); HpoSet::similarity, GroupSimilarity::calculate and SimilarityCombiner::calculate on the Matrix against the f64 reference; for (300,300) also one cache serving (A,B), (B,A), (A,B) (90 000 + 90 000 entries); a 1 x 32 769 matrix (thorough: also 2 x 40 000) handed to funSimAvg and BMA (thorough: all three) directly (more columns than a 15-bit index holds; sets of that width are thorough-only because the library's column scan is quadratic)");
         // many columns are slow in the library (column maxima cost O(cols^2)): the transposed border shapes are thorough-only
         let shapes: Vec<(usize, usize)> = if thorough { vec![(65_535, 1), (65_534, 2), (65_533, 4), (65_535, 4), (1, 65_535), (4, 65_533), (300, 300)] } else { vec![(65_535, 1), (65_534, 2), (65_533, 4), (65_535, 4), (2, 6000), (300, 300)] };
@@ -1108,6 +1186,7 @@ pub fn run(ctx: &mut Ctx) {
             ctx.sample(|| json!({"rows": r, "cols": c, "entry_point": "SimilarityCombiner::calculate(&Matrix)"}));
         }
     }
+    ctx.bump("refused: comparison with a second set on a twin Ontology instance (panic; tolerated only if every such comparison is refused)", TWIN_REFUSED.with(|c| c.get()));
     let n = TWIN_TERM_FROM_OTHER_INSTANCE.with(|c| c.get());
     ctx.bump("twin_comparisons_in_which_the_callback_got_a_term_of_the_first_instance", n);
 }
